@@ -57,6 +57,12 @@ pub fn verif_dir() -> PathBuf {
     PathBuf::from(std::env::var("VERIF_DIR").unwrap_or_else(|_| "/verif".to_string()))
 }
 
+/// where evidence/ and replays/ are written (default: the verif dir; overridden only by the
+/// mutation-testing script so that it does not touch the committed evidence)
+pub fn out_dir() -> PathBuf {
+    std::env::var("VERIF_OUT").map(PathBuf::from).unwrap_or_else(|_| verif_dir())
+}
+
 pub fn repo_dir() -> PathBuf {
     PathBuf::from(std::env::var("VERIF_REPO").unwrap_or_else(|_| "/repo".to_string()))
 }
@@ -425,7 +431,7 @@ impl Run {
     /// Writes evidence, prints KNOWN-FINDING / VIOLATION lines, returns the process exit code.
     pub fn finish(mut self) -> i32 {
         let wall = self.start.elapsed().as_secs_f64();
-        let vd = verif_dir();
+        let vd = out_dir();
         let mut violation_lines = vec![];
         let _ = std::fs::create_dir_all(vd.join("replays"));
         for (i, f) in self.failures.iter().enumerate() {
@@ -586,7 +592,7 @@ impl Watchdog {
                         // a worker is stuck inside the code under test; it cannot be cancelled.
                         // Report and terminate the process from here.
                         let case = hung.lock().unwrap().clone().unwrap();
-                        let vd = verif_dir();
+                        let vd = out_dir();
                         let _ = std::fs::create_dir_all(vd.join("replays"));
                         let path = vd.join("replays").join("hang.json");
                         let case_j: J = serde_json::from_str(&case).unwrap_or(J::String(case.clone()));
